@@ -56,10 +56,11 @@ def main():
         if ok:
             dst = os.path.join('/verif/seeded', name)
             os.makedirs(dst, exist_ok=True)
-            shutil.copy(os.path.join(seed, 'patch.diff'), dst)
-            shutil.copy(demo, dst)
-            if os.path.exists(os.path.join(seed, 'README.md')):
-                shutil.copy(os.path.join(seed, 'README.md'), dst)
+            if os.path.abspath(seed) != os.path.abspath(dst):
+                shutil.copy(os.path.join(seed, 'patch.diff'), dst)
+                shutil.copy(demo, dst)
+                if os.path.exists(os.path.join(seed, 'README.md')):
+                    shutil.copy(os.path.join(seed, 'README.md'), dst)
             meta = {'property': prop, 'breaks': open(os.path.join(seed, 'README.md')).read()[:1500] if os.path.exists(os.path.join(seed, 'README.md')) else '',
                     'confirmed': {'demo_exit_on_clean_tree': out['demo_clean_exit'], 'demo_exit_with_change': out['demo_mutant_exit'],
                                   'repository_suite_with_change': out['suite']},
@@ -67,6 +68,11 @@ def main():
                     'checks': res, 'detected_by': sorted(k for k, v in res.items() if v['exit'] == 1),
                     'source': 'independent sub-agent given only the property text and a scratch worktree'}
             mp = os.path.join(dst, 'meta.json')
+            if not meta['breaks'] and os.path.exists(mp):
+                try:
+                    meta['breaks'] = json.load(open(mp)).get('breaks', '')
+                except Exception:
+                    pass
             if os.path.exists(mp) and os.environ.get('SEED_MERGE', '1') == '1':
                 try:
                     prev = json.load(open(mp))
